@@ -202,7 +202,7 @@ pub fn pe(e: &E, ind: usize) -> String {
             if fields.is_empty() {
                 format!("{f}({{..}})")
             } else {
-                format!("{f}({{{}}})", fields.iter().map(|(k, v)| format!("{k} = {}", pe(v, ind))).collect::<Vec<_>>().join(", "))
+                format!("{f}({{{}}})", fields.iter().map(|(k, v)| if k == ".." { "..".to_string() } else { format!("{k} = {}", pe(v, ind)) }).collect::<Vec<_>>().join(", "))
             }
         }
         // `if (c) (e)` would be read as the call `(c)(e)`: a then-branch that starts with a parenthesis goes into a block
@@ -585,7 +585,7 @@ impl<'p> Interp<'p> {
                 let fd = *self.fns.get(f).ok_or_else(|| EvalErr::Bug(format!("unknown fn {f}")))?;
                 // evaluate the given fields in source order, then bind parameters by name
                 let mut given: Vec<(String, V)> = vec![];
-                for (k, a) in fields {
+                for (k, a) in fields.iter().filter(|(k, _)| k != "..") {
                     given.push((k.clone(), self.eval(a, env, node, selfv)?));
                 }
                 let ch = Self::child(node, *site);
